@@ -390,10 +390,12 @@ def run(ch, render=False):
             w.probe("file_source")
             fail_at = ch.draw(4, "eio_at") if g["inject"] == "eio" else None
             g["raw"] = SimRaw(w, stream, fail_at=fail_at, name=f"disk{gi}")
+            g["raw"].eof_budget = 8 + 6 * len(g["pkts"])       # polls at end-of-file without a yield in between (skipped packets)
             source = io.BufferedReader(g["raw"], buffer_size=ch.pick((8192, 16, 1), "bufsize"))
         else:
             w.probe("socket_source")
             pipe = Pipe(w, name=f"pipe{gi}")
+            pipe.eof_budget = 8 + 6 * len(g["pkts"])
             die_after = ch.draw(len(stream) + 1, "die_after") if g["inject"] != "none" else None
 
             def producer(pipe=pipe, stream=stream, die_after=die_after, inject=g["inject"]):
@@ -466,7 +468,7 @@ def run(ch, render=False):
                 if act == "gen_close":
                     w.fault("gen_close")
                     w.ev(f"gen{gi}", "close")
-                    g["gen"].close()
+                    getattr(g["gen"], "close", lambda: None)()
                     g["state"] = "abandoned"
                     continue
                 if act == "direct_parse_between":
@@ -491,11 +493,12 @@ def run(ch, render=False):
                         res = None
                         try:
                             res = xf.canon_item(defs[g["di"]].parse_ccsds_packet(CCSDSPacket(raw_data=raw_in)))
-                        except UnrecognizedPacketTypeError as e:
-                            res = xf.canon_item(e)
-                        except Exception as e:      # noqa: BLE001 -- this packet parsed alone without raising
+                        except Exception as e:      # noqa: BLE001
                             library_exception(e)
-                            err = ("exception", f"direct parse_ccsds_packet of a packet that parses alone raised "
+                            if hasattr(e, "partial_data"):
+                                res = xf.canon_item(e)      # "not recognised" in whatever exception class the library uses
+                            else:                           # this packet parsed alone without raising
+                                err = ("exception", f"direct parse_ccsds_packet of a packet that parses alone raised "
                                                 f"{type(e).__name__}: {e}", gi)
                         exp_one = g["alone_default"][pi]
                         if err is None and len(exp_one) == 1 and res != exp_one[0] and out.violation is None:
